@@ -376,7 +376,7 @@ fn judge_c03(id: &str, lines: &[String], model: &[String], out: &mut Vec<String>
                         }
                         // an instance that lacked UniqueId gets the nil default (0,0,0) in the file; building a WeakDom from the
                         // decoded forest regenerates nil / repeated ids (WeakDom's uniqueness rule, C12), exactly as for the reader
-                        if x.key == "default-uniqueid-regenerated" || (x.key == "uniqueid-regenerated" && x.text.contains("expected `UId 0 0 0`")) {
+                        if x.key == "default-uniqueid-regenerated" || x.key == "nil-uniqueid-regenerated" || (x.key == "uniqueid-regenerated" && x.text.contains("expected `UId 0 0 0`")) {
                             continue;
                         }
                         // which value the serializer fills in for an instance that lacked a property its class-mates carry is C01's
